@@ -320,3 +320,12 @@ Example mon03_hyps_nonvacuous_crash :
   mon03 exc_inp exc_obs = [] /\ length (sx_list exc_obs) = 3 /\
   m_prev (first_inc exc_inp exc_obs) = 2%Z /\ length (m_copies (first_inc exc_inp exc_obs)) = 2.
 Proof. vm_compute. repeat split; reflexivity. Qed.
+
+(** the hypothesis [u_obs] cannot be dropped: the replay validates the block-list / syncer call
+    history, not the results of the store's own operations.  [exb_obs] is [exg_obs] with the result of
+    the refused upload altered by hand from UNAVAILABLE to OK (not an observation of the code): the
+    model still accepts it, [u_obs] rejects it, and the monitor reports clause 2. *)
+Example mon03_u_obs_is_needed :
+  is_marker exb_obs = false /\ replay03 exg_inp exb_obs = [] /\ u_obs exg_inp exb_obs = false /\
+  mon03 exg_inp exb_obs = [2%Z].
+Proof. vm_compute. repeat split; reflexivity. Qed.
